@@ -96,6 +96,8 @@ def _apply_format_err(text, log):
 
 
 def strip_attrs_and_docs(text):
+    # an attribute that starts a line and spans several lines (`#[serde(\n rename = "..",\n ..)]`) is dropped as a whole
+    text = re.sub(r"(?m)^[ \t]*#\[\w+\(\s*\n(?:[^\[\]]*\n)*?[ \t]*\)\][ \t]*\n", "", text)
     lines = []
     for ln in text.split("\n"):
         s = ln.strip()
